@@ -26,23 +26,23 @@ Definition starts_with (c : ascii) (s : bytes) : Prop := exists r, s = c :: r.
      a '/' and then it neither ends nor starts with '/'. *)
 Inductive Matches : list token -> bytes -> nat -> list bytes -> Prop :=
 | M_nil : Matches [] [] 0 []
-| M_static c ts s h vals :
-    c <> "{" -> c <> "*" ->
-    Matches ts s (pred h) vals ->
+| M_static c ts s h vals
+    (Hc1 : c <> "{") (Hc2 : c <> "*")
+    (HM : Matches ts s (pred h) vals) :
     Matches (TStatic c :: ts) (c :: s) h vals
-| M_param_path n ts v s vals :
-    v <> [] -> ~ In "/" v -> (s = [] \/ starts_with "/" s) ->
-    Matches ts s 0 vals ->
+| M_param_path n ts v s vals
+    (Hv : v <> []) (Hnv : ~ In "/" v) (Hnx : s = [] \/ starts_with "/" s)
+    (HM : Matches ts s 0 vals) :
     Matches (TParam n :: ts) (v ++ s) 0 (v :: vals)
-| M_param_host n ts v s h vals :
-    h <> 0 -> v <> [] -> ~ In "." v -> length v <= h ->
-    (length v = h \/ starts_with "." s) ->
-    Matches ts s (h - length v) vals ->
+| M_param_host n ts v s h vals
+    (Hh : h <> 0) (Hv : v <> []) (Hnv : ~ In "." v) (Hlen : length v <= h)
+    (Hnx : length v = h \/ starts_with "." s)
+    (HM : Matches ts s (h - length v) vals) :
     Matches (TParam n :: ts) (v ++ s) h (v :: vals)
-| M_catch n ts v s vals :
-    v <> [] ->
-    (s = [] \/ (starts_with "/" s /\ last v "/" <> "/" /\ hd "/" v <> "/")) ->
-    Matches ts s 0 vals ->
+| M_catch n ts v s vals
+    (Hv : v <> [])
+    (Hnx : s = [] \/ (starts_with "/" s /\ last v "/" <> "/" /\ hd "/" v <> "/"))
+    (HM : Matches ts s 0 vals) :
     Matches (TCatch n :: ts) (v ++ s) 0 (v :: vals).
 
 (* ------------------------------------------------------------------ *)
@@ -309,7 +309,7 @@ Proof.
     assert (Hs : skipn h (v ++ s) = skipn (h - length v) s).
     { rewrite skipn_app. rewrite skipn_all2 by lia. reflexivity. }
     rewrite Hf, Hs. repeat split; auto. constructor; auto.
-    destruct H3 as [H3|(r & ->)].
+    destruct Hnx as [H3|(r & ->)].
     + left; exact H3.
     + destruct (h - length v) as [|d] eqn:Ed; [left; lia|right; simpl; eexists; reflexivity].
   - exists [], (TCatch n :: ts), [], (v :: vals). repeat split; try constructor; auto.
@@ -400,14 +400,14 @@ Proof.
     assert (E : pval 0 (v ++ s) = v).
     { unfold pval. simpl. apply seg_unique.
       - intros x Hx. apply Ascii.eqb_neq. intros ->. contradiction.
-      - destruct H1 as [->|(r & ->)]; [left; reflexivity|right; eauto]. }
+      - destruct Hnx as [->|(r & ->)]; [left; reflexivity|right; eauto]. }
     rewrite E, skipn_app_len. auto.
   - right; left. exists n, ts, vals.
     assert (E : pval h (v ++ s) = v).
     { unfold pval. destruct (Nat.eqb_spec h 0); [contradiction|]. cbn [negb].
       rewrite firstn_app, (firstn_all2 v) by lia. apply seg_unique.
       - intros x Hx. apply Ascii.eqb_neq. intros ->. contradiction.
-      - destruct H4 as [H4|(r & ->)].
+      - destruct Hnx as [H4|(r & ->)].
         + left. replace (h - length v) with 0 by lia. reflexivity.
         + destruct (h - length v); [left; reflexivity|right; simpl; eauto]. }
     rewrite E, skipn_app_len. auto.
@@ -416,4 +416,294 @@ Proof.
     + destruct v; [contradiction|simpl; lia].
     + rewrite app_length; lia.
     + apply split_ok_intro; auto.
+Qed.
+
+Lemma try_splits_char {A} (f : bytes -> bytes -> option A) s : forall k i,
+  match try_splits k i s f with
+  | None => forall j, i <= j < i + k -> split_ok s j = true -> f (firstn j s) (skipn j s) = None
+  | Some x => exists j, i <= j < i + k /\ split_ok s j = true /\
+       f (firstn j s) (skipn j s) = Some x /\
+       forall j', i <= j' < j -> split_ok s j' = true -> f (firstn j' s) (skipn j' s) = None
+  end.
+Proof.
+  induction k as [|k IH]; intros i; cbn [try_splits].
+  - intros j Hj; lia.
+  - unfold orelse. specialize (IH (S i)).
+    destruct (split_ok s i) eqn:Es; [destruct (f (firstn i s) (skipn i s)) as [x|] eqn:Ef|].
+    + exists i. split; [lia|]. split; [exact Es|]. split; [exact Ef|]. intros j' Hj'; lia.
+    + destruct (try_splits k (S i) s f) as [x|].
+      * destruct IH as (j & Hj & Hs & Hf & Hmin). exists j. split; [lia|]. split; [exact Hs|]. split; [exact Hf|].
+        intros j' Hj' Hs'. destruct (Nat.eq_dec j' i) as [->|]; auto. apply Hmin; auto; lia.
+      * intros j Hj Hs. destruct (Nat.eq_dec j i) as [->|]; auto. apply IH; auto; lia.
+    + destruct (try_splits k (S i) s f) as [x|].
+      * destruct IH as (j & Hj & Hs & Hf & Hmin). exists j. split; [lia|]. split; [exact Hs|]. split; [exact Hf|].
+        intros j' Hj' Hs'. destruct (Nat.eq_dec j' i) as [->|]; [congruence|]. apply Hmin; auto; lia.
+      * intros j Hj Hs. destruct (Nat.eq_dec j i) as [->|]; [congruence|]. apply IH; auto; lia.
+Qed.
+
+(* ------------------------------------------------------------------ *)
+(* 6. Soundness, for every fuel                                        *)
+(* ------------------------------------------------------------------ *)
+
+Lemma select_sound_gen fuel : forall cs s h acc p vs,
+  h <= length s ->
+  select fuel cs s h acc = Some (p, vs) ->
+  exists k vals, In k cs /\ pat k = p /\ vs = rev acc ++ vals /\ Matches (toks k) s h vals.
+Proof.
+  induction fuel as [|fuel IH]; intros cs s h acc p vs Hh; [discriminate|].
+  destruct s as [|c r].
+  - cbn [select]. destruct (leaf cs) as [q|] eqn:El; [|discriminate]. intros [= <- <-].
+    apply leaf_some in El. destruct El as (k & Hk & Ht & Hp).
+    exists k, []. rewrite app_nil_r, Ht. simpl in Hh. replace h with 0 by lia.
+    repeat split; auto. constructor.
+  - rewrite select_unfold. unfold orelse at 1.
+    match goal with |- match ?e with Some _ => _ | None => _ end = _ -> _ => destruct e as [x|] eqn:E1 end.
+    { intros [= ->]. destruct (Ascii.eqb c "{" || Ascii.eqb c "*") eqn:Ec; [discriminate|].
+      apply orb_false_iff in Ec. destruct Ec as [Ec1 Ec2]. apply Ascii.eqb_neq in Ec1, Ec2.
+      apply IH in E1; [|simpl in Hh; lia].
+      destruct E1 as (k' & vals & Hin & Hp & Hvs & HM).
+      apply adv_static_in in Hin. destruct Hin as (k & Hk & Htk & Hpk).
+      exists k, vals. rewrite Htk. repeat split; auto; try congruence. constructor; auto. }
+    unfold orelse at 1.
+    match goal with |- match ?e with Some _ => _ | None => _ end = _ -> _ => destruct e as [x|] eqn:E2 end.
+    { intros [= ->]. remember (pval h (c :: r)) as v eqn:Ev.
+      assert (Hv : v <> []) by (intros ->; discriminate).
+      assert (E2' : select fuel (adv_param cs) (skipn (length v) (c :: r)) (h - length v) (v :: acc)
+                    = Some (p, vs)) by (destruct v; [contradiction|exact E2]).
+      apply IH in E2'; [|rewrite skipn_length; lia].
+      destruct E2' as (k' & vals & Hin & Hp & Hvs & HM).
+      apply adv_param_in in Hin. destruct Hin as (k & n & Hk & Htk & Hpk).
+      exists k, (v :: vals). rewrite Htk. repeat split; auto; try congruence.
+      - rewrite Hvs. simpl. rewrite <- app_assoc. reflexivity.
+      - subst v. apply Matches_param_intro; auto. }
+    destruct (Nat.eqb_spec h 0) as [->|Hn]; cbn [negb]; [|discriminate].
+    intros H.
+    pose proof (try_splits_char (fun v rest => select fuel (adv_catch cs) rest 0 (v :: acc))
+                  (c :: r) (length (c :: r)) 1) as Hc.
+    rewrite H in Hc. destruct Hc as (j & Hj & Hok & Hf & _).
+    apply IH in Hf; [|lia].
+    destruct Hf as (k' & vals & Hin & Hp & Hvs & HM).
+    apply adv_catch_in in Hin. destruct Hin as (k & n & Hk & Htk & Hpk).
+    exists k, (firstn j (c :: r) :: vals). rewrite Htk. repeat split; auto; try congruence.
+    + rewrite Hvs. simpl. rewrite <- app_assoc. reflexivity.
+    + apply Matches_catch_intro; auto. lia.
+Qed.
+
+(* ------------------------------------------------------------------ *)
+(* 7. Completeness and priority: with enough fuel, [select] answers    *)
+(*    None exactly when nothing matches, and otherwise the best match  *)
+(* ------------------------------------------------------------------ *)
+
+Definition sel_ok (cs : list cand) (s : bytes) (h : nat) (acc : list bytes)
+  (res : option (bytes * list bytes)) : Prop :=
+  match res with
+  | None => NoMatch cs s h
+  | Some (p, vs) => exists k vals, pat k = p /\ vs = rev acc ++ vals /\ Best cs s h k vals
+  end.
+
+Lemma trace_static c t vals : trace (TStatic c :: t) vals = CStatic :: trace t vals.
+Proof. reflexivity. Qed.
+Lemma trace_param n t v vals : trace (TParam n :: t) (v :: vals) = CParam :: trace t vals.
+Proof. reflexivity. Qed.
+Lemma trace_catch n t v vals : trace (TCatch n :: t) (v :: vals) = CCatch (length v) :: trace t vals.
+Proof. reflexivity. Qed.
+
+Lemma select_char fuel : forall cs s h acc,
+  length s < fuel -> h <= length s -> sel_ok cs s h acc (select fuel cs s h acc).
+Proof.
+  induction fuel as [|fuel IH]; intros cs s h acc Hf Hh; [lia|].
+  destruct s as [|c r].
+  - (* end of the text: a candidate with no token left *)
+    cbn [select]. destruct (leaf cs) as [p|] eqn:El; cbn [sel_ok].
+    + apply leaf_some in El. destruct El as (k & Hk & Ht & Hp).
+      exists k, []. rewrite app_nil_r. split; [exact Hp|]. split; [reflexivity|].
+      split; [exact Hk|]. simpl in Hh. replace h with 0 by lia. split.
+      * rewrite Ht. constructor.
+      * intros k' vals' Hk' HM. apply Matches_nil_inv in HM. destruct HM as (-> & -> & _).
+        rewrite Ht. constructor.
+    + intros k vals Hk HM. apply Matches_nil_inv in HM. destruct HM as (Ht & _).
+      exact (leaf_none _ El k Hk Ht).
+  - rewrite select_unfold.
+    set (s := c :: r) in *.
+    assert (Hs : s <> []) by discriminate.
+    (* --- alternative 1: static byte --- *)
+    unfold orelse at 1.
+    match goal with |- sel_ok _ _ _ _ (match ?e with Some _ => _ | None => _ end) =>
+      destruct e as [[p vs]|] eqn:E1 end.
+    { destruct (Ascii.eqb c "{" || Ascii.eqb c "*") eqn:Ec; [discriminate|].
+      apply orb_false_iff in Ec. destruct Ec as [Ec1 Ec2]. apply Ascii.eqb_neq in Ec1, Ec2.
+      pose proof (IH (adv_static c cs) r (pred h) acc) as IH1. rewrite E1 in IH1.
+      destruct IH1 as (k' & vals & Hp & Hvs & Hin & HM & Hmin); [subst s; cbn [List.length] in *; lia..|].
+      apply adv_static_in in Hin. destruct Hin as (k & Hk & Htk & Hpk).
+      exists k, vals. split; [congruence|]. split; [exact Hvs|]. split; [exact Hk|]. split.
+      - rewrite Htk. constructor; auto.
+      - intros k2 vals2 Hk2 HM2. apply Matches_inv in HM2; [|exact Hs].
+        destruct HM2 as [(c2 & t2 & r2 & Ht2 & Hs2 & _ & _ & HM2)
+                        |[(n2 & t2 & vals2' & Ht2 & Hv2 & _)
+                         |(n2 & t2 & j & vals2' & Ht2 & _ & Hv2 & _)]].
+        + injection Hs2 as <- <-. rewrite Htk, Ht2, !trace_static. apply tle_eq.
+          apply (Hmin {| pat := pat k2; toks := t2 |}); [|exact HM2].
+          apply adv_static_in. exists k2. auto.
+        + rewrite Htk, Ht2, Hv2, trace_static, trace_param. apply tle_lt. exact I.
+        + rewrite Htk, Ht2, Hv2, trace_static, trace_catch. apply tle_lt. exact I. }
+    assert (HnoS : forall k c2 t r2 vals, In k cs -> toks k = TStatic c2 :: t -> s = c2 :: r2 ->
+                     c2 <> "{" -> c2 <> "*" -> ~ Matches t r2 (pred h) vals).
+    { intros k c2 t r2 vals Hk Ht Hs2 Hc1 Hc2 HM. injection Hs2 as <- <-.
+      destruct (Ascii.eqb c "{" || Ascii.eqb c "*") eqn:Ec.
+      - apply orb_true_iff in Ec. destruct Ec as [Ec|Ec]; apply Ascii.eqb_eq in Ec; contradiction.
+      - pose proof (IH (adv_static c cs) r (pred h) acc) as IH1. rewrite E1 in IH1.
+        apply (IH1 ltac:(subst s; cbn [List.length] in *; lia) ltac:(subst s; cbn [List.length] in *; lia)
+                   {| pat := pat k; toks := t |} vals); [|exact HM].
+        apply adv_static_in. exists k. auto. }
+    clear E1.
+    (* --- alternative 2: named parameter --- *)
+    remember (pval h s) as v eqn:Ev.
+    assert (Hvlen : length v <= length s) by (subst v; apply pval_length).
+    unfold orelse at 1.
+    match goal with |- sel_ok _ _ _ _ (match ?e with Some _ => _ | None => _ end) =>
+      destruct e as [[p vs]|] eqn:E2 end.
+    { assert (Hv : v <> []) by (intros ->; discriminate).
+      assert (E2' : select fuel (adv_param cs) (skipn (length v) s) (h - length v) (v :: acc)
+                    = Some (p, vs)) by (destruct v; [contradiction|exact E2]).
+      pose proof (IH (adv_param cs) (skipn (length v) s) (h - length v) (v :: acc)) as IH2.
+      rewrite E2' in IH2.
+      assert (Hvl : 1 <= length v) by (destruct v; [contradiction|simpl; lia]).
+      destruct IH2 as (k' & vals & Hp & Hvs & Hin & HM & Hmin);
+        [rewrite skipn_length; subst s; cbn [List.length] in *; lia..|].
+      apply adv_param_in in Hin. destruct Hin as (k & n & Hk & Htk & Hpk).
+      exists k, (v :: vals). split; [congruence|]. split.
+      { rewrite Hvs. simpl. rewrite <- app_assoc. reflexivity. }
+      split; [exact Hk|]. split.
+      - rewrite Htk. subst v. apply Matches_param_intro; auto.
+      - intros k2 vals2 Hk2 HM2. apply Matches_inv in HM2; [|exact Hs].
+        destruct HM2 as [(c2 & t2 & r2 & Ht2 & Hs2 & Hc1 & Hc2 & HM2)
+                        |[(n2 & t2 & vals2' & Ht2 & Hv2 & _ & HM2)
+                         |(n2 & t2 & j & vals2' & Ht2 & _ & Hv2 & _)]].
+        + exfalso. exact (HnoS k2 c2 t2 r2 vals2 Hk2 Ht2 Hs2 Hc1 Hc2 HM2).
+        + rewrite Htk, Ht2, Hv2, !trace_param. apply tle_eq. rewrite <- Ev in HM2.
+          apply (Hmin {| pat := pat k2; toks := t2 |}); [|exact HM2].
+          apply adv_param_in. exists k2, n2. auto.
+        + rewrite Htk, Ht2, Hv2, trace_param, trace_catch. apply tle_lt. exact I. }
+    assert (HnoP : forall k n t vals, In k cs -> toks k = TParam n :: t -> v <> [] ->
+                     ~ Matches t (skipn (length v) s) (h - length v) vals).
+    { intros k n t vals Hk Ht Hv HM.
+      assert (E2' : select fuel (adv_param cs) (skipn (length v) s) (h - length v) (v :: acc)
+                    = None) by (destruct v; [contradiction|exact E2]).
+      assert (Hvl : 1 <= length v) by (destruct v; [contradiction|simpl; lia]).
+      pose proof (IH (adv_param cs) (skipn (length v) s) (h - length v) (v :: acc)) as IH2.
+      rewrite E2' in IH2.
+      apply (IH2 ltac:(rewrite skipn_length; subst s; cbn [List.length] in *; lia)
+                 ltac:(rewrite skipn_length; subst s; cbn [List.length] in *; lia)
+                 {| pat := pat k; toks := t |} vals); [|exact HM].
+      apply adv_param_in. exists k, n. auto. }
+    clear E2.
+    (* --- alternative 3: catch-all, shortest value first --- *)
+    destruct (Nat.eqb_spec h 0) as [->|Hn]; cbn [negb].
+    2:{ intros k vals Hk HM. apply Matches_inv in HM; [|exact Hs].
+        destruct HM as [(c2 & t2 & r2 & Ht2 & Hs2 & Hc1 & Hc2 & HM2)
+                       |[(n2 & t2 & vals2' & Ht2 & Hv2 & Hne & HM2)
+                        |(n2 & t2 & j & vals2' & Ht2 & Hh0 & _)]].
+        - exact (HnoS k c2 t2 r2 vals Hk Ht2 Hs2 Hc1 Hc2 HM2).
+        - rewrite <- Ev in *. exact (HnoP k n2 t2 vals2' Hk Ht2 Hne HM2).
+        - contradiction. }
+    pose proof (try_splits_char (fun v rest => select fuel (adv_catch cs) rest 0 (v :: acc))
+                  s (length s) 1) as Hc.
+    cbv beta in Hc.
+    assert (IH3 : forall j, 1 <= j <= length s ->
+              sel_ok (adv_catch cs) (skipn j s) 0 (@cons bytes (firstn j s) acc)
+                     (select fuel (adv_catch cs) (skipn j s) 0 (@cons bytes (firstn j s) acc))).
+    { intros j Hj. apply IH; [rewrite skipn_length; subst s; cbn [List.length] in *; lia|lia]. }
+    destruct (try_splits (length s) 1 s _) as [[p vs]|].
+    + destruct Hc as (j & Hj & Hok & Hsel & Hfirst).
+      assert (Hj' : 1 <= j <= length s) by lia.
+      pose proof (IH3 j Hj') as IHj. rewrite Hsel in IHj.
+      destruct IHj as (k' & vals & Hp & Hvs & Hin & HM & Hmin).
+      apply adv_catch_in in Hin. destruct Hin as (k & n & Hk & Htk & Hpk).
+      exists k, (firstn j s :: vals). split; [congruence|]. split.
+      { rewrite Hvs. simpl. rewrite <- app_assoc. reflexivity. }
+      split; [exact Hk|]. split.
+      * rewrite Htk. apply Matches_catch_intro; auto.
+      * intros k2 vals2 Hk2 HM2. apply Matches_inv in HM2; [|exact Hs].
+        destruct HM2 as [(c2 & t2 & r2 & Ht2 & Hs2 & Hc1 & Hc2 & HM2)
+                        |[(n2 & t2 & vals2' & Ht2 & Hv2 & Hne & HM2)
+                         |(n2 & t2 & j2 & vals2' & Ht2 & _ & Hv2 & Hj2 & Hok2 & HM2)]].
+        -- exfalso. exact (HnoS k2 c2 t2 r2 vals2 Hk2 Ht2 Hs2 Hc1 Hc2 HM2).
+        -- exfalso. rewrite <- Ev in *. exact (HnoP k2 n2 t2 vals2' Hk2 Ht2 Hne HM2).
+        -- rewrite Htk, Ht2, Hv2, !trace_catch, !firstn_length_le by lia.
+           destruct (lt_eq_lt_dec j2 j) as [[Hlt| ->]|Hgt].
+           ++ exfalso. pose proof (IH3 j2 Hj2) as IHj2.
+              rewrite (Hfirst j2 ltac:(lia) Hok2) in IHj2.
+              apply (IHj2 {| pat := pat k2; toks := t2 |} vals2'); [|exact HM2].
+              apply adv_catch_in. exists k2, n2. auto.
+           ++ apply tle_eq. apply (Hmin {| pat := pat k2; toks := t2 |}); [|exact HM2].
+              apply adv_catch_in. exists k2, n2. auto.
+           ++ apply tle_lt. exact Hgt.
+    + intros k vals Hk HM. apply Matches_inv in HM; [|exact Hs].
+      destruct HM as [(c2 & t2 & r2 & Ht2 & Hs2 & Hc1 & Hc2 & HM2)
+                     |[(n2 & t2 & vals2' & Ht2 & Hv2 & Hne & HM2)
+                      |(n2 & t2 & j2 & vals2' & Ht2 & _ & Hv2 & Hj2 & Hok2 & HM2)]].
+      * exact (HnoS k c2 t2 r2 vals Hk Ht2 Hs2 Hc1 Hc2 HM2).
+      * rewrite <- Ev in *. exact (HnoP k n2 t2 vals2' Hk Ht2 Hne HM2).
+      * pose proof (IH3 j2 Hj2) as IHj2. rewrite (Hc j2 ltac:(lia) Hok2) in IHj2.
+        apply (IHj2 {| pat := pat k; toks := t2 |} vals2'); [|exact HM2].
+        apply adv_catch_in. exists k, n2. auto.
+Qed.
+
+(* ------------------------------------------------------------------ *)
+(* 8. The theorems about [select] (vals accumulator = [])              *)
+(* ------------------------------------------------------------------ *)
+
+Theorem select_sound fuel cs s h p vals :
+  h <= length s ->
+  select fuel cs s h [] = Some (p, vals) ->
+  exists k, In k cs /\ pat k = p /\ Matches (toks k) s h vals.
+Proof.
+  intros Hh H. apply select_sound_gen in H; [|exact Hh].
+  destruct H as (k & vals' & Hk & Hp & -> & HM). exists k. auto.
+Qed.
+
+Theorem select_complete fuel cs s h k vals :
+  In k cs -> Matches (toks k) s h vals -> length s < fuel ->
+  select fuel cs s h [] <> None.
+Proof.
+  intros Hk HM Hf E. pose proof (select_char fuel cs s h [] Hf (Matches_h_le _ _ _ _ HM)) as H.
+  rewrite E in H. exact (H k vals Hk HM).
+Qed.
+
+Theorem select_none_iff fuel cs s h :
+  length s < fuel -> h <= length s ->
+  (select fuel cs s h [] = None <-> NoMatch cs s h).
+Proof.
+  intros Hf Hh. split.
+  - intros E. pose proof (select_char fuel cs s h [] Hf Hh) as H. rewrite E in H. exact H.
+  - intros HN. destruct (select fuel cs s h []) as [[p vals]|] eqn:E; [|reflexivity].
+    apply select_sound in E; [|exact Hh]. destruct E as (k & Hk & _ & HM).
+    destruct (HN k vals Hk HM).
+Qed.
+
+Theorem select_priority fuel cs s h p vals :
+  length s < fuel -> h <= length s ->
+  select fuel cs s h [] = Some (p, vals) ->
+  exists k, pat k = p /\ Best cs s h k vals.
+Proof.
+  intros Hf Hh E. pose proof (select_char fuel cs s h [] Hf Hh) as H. rewrite E in H.
+  destruct H as (k & vals' & Hp & -> & HB). exists k. auto.
+Qed.
+
+(* candidates built from registered patterns *)
+Lemma in_mk_cand k pats : In k (map mk_cand pats) -> In (pat k) pats /\ toks k = tokenize (pat k).
+Proof. rewrite in_map_iff. intros (p & <- & Hp). auto. Qed.
+
+Theorem select_sound_pats fuel pats s h p vals :
+  h <= length s ->
+  select fuel (map mk_cand pats) s h [] = Some (p, vals) ->
+  In p pats /\ Matches (tokenize p) s h vals /\
+  length vals = length (wildcard_names (tokenize p)) /\
+  subst (tokenize p) vals = s.
+Proof.
+  intros Hh H. apply select_sound in H; [|exact Hh]. destruct H as (k & Hk & <- & HM).
+  apply in_mk_cand in Hk. destruct Hk as [Hk Ht]. rewrite Ht in HM.
+  split; [exact Hk|]. split; [exact HM|]. split.
+  - eapply Matches_length; eauto.
+  - eapply Matches_subst; eauto.
 Qed.
